@@ -284,5 +284,23 @@ CHECKS["C15"] = {
     "note": "three representative names; known finding: '*' inside terminal brackets is rejected contrary to the "
             "manual",
 }
+CHECKS["C17"] = {
+    "category": "exploration",
+    "technique": "bounded exhaustive enumeration of offer sequences x source x target against a brute-force chain search",
+    "text": "Four type universes (linear 3-level hierarchy + intermediates, diamond with multiple inheritance, ABCs "
+            "with virtual registration, a target whose instances are falsy): every sequence (multiset in every "
+            "registration order, duplicates and cycles included) of up to 3 offers (linear) / 2 (others) (+1 "
+            "thorough) over all ordered type pairs x {adapter, conditional factory returning None}, for every source "
+            "type and target, on a fresh AdaptationManager: adapt returns the object itself when it provides the "
+            "protocol; otherwise an adapter iff a brute-force search finds a chain of distinct applicable offers "
+            "whose factories all succeed, else AdaptationError / the supplied default; the chain actually used "
+            "(recorded by instrumented factories) is one of the valid chains, has minimum length, and no "
+            "single-step offer for a base type is used when one for its subclass would do. For all sequences of up "
+            "to 2 offers Supports, AdaptsTo, Instance(adapt='yes') and BaseInstance(adapt='yes') assignment (global "
+            "manager swapped in) must give the same verdict, stored value and shadow value, and re-assigning the "
+            "same object after a new offer was registered must refresh the AdaptsTo shadow.",
+    "note": "<=3/4 offers; factories without side effects or adaptee-dependent conditions; ties between unrelated "
+            "source types are free",
+}
 
 NOT_CLAIMED = {}
